@@ -669,6 +669,14 @@ func (v Value) data() []Value {
 	if t, ok := v.value.(*sliceT); ok {
 		return t.data
 	}
+	if s, ok := v.value.(stringT); ok {
+		// the elements of a string are its bytes (append(b, s...)); Range decodes runes
+		res := make([]Value, len(s))
+		for i := 0; i < len(s); i++ {
+			res[i] = Byte(s[i])
+		}
+		return res
+	}
 	res := make([]Value, v.Len())
 	next := v.Range()
 	for {
